@@ -289,6 +289,25 @@ impl Slot {
             }
         }
     }
+    /// One decode call of ANOTHER decoder state on this slot's reader (two decoders
+    /// taking turns on one reader is legal use of the API).
+    pub fn decode_with(&mut self, other: &mut H263State) -> Outcome {
+        {
+            let mut p = self.pipe.lock().unwrap();
+            let remaining = (p.data.len() - p.pos) as u64;
+            p.budget = p.reads + 256 + 4 * remaining + 4 * p.armed.len() as u64;
+        }
+        let r = guarded(|| other.decode_next_picture(&mut self.reader));
+        {
+            let mut p = self.pipe.lock().unwrap_or_else(|e| e.into_inner());
+            p.budget = u64::MAX;
+        }
+        match r {
+            Ok(Ok(())) => Outcome::Ok,
+            Ok(Err(e)) => Outcome::Err(err_string(&e)),
+            Err(p) => Outcome::Panic(p),
+        }
+    }
     pub fn cleanup(&mut self) -> Outcome {
         match guarded(|| self.state.cleanup_buffers()) {
             Ok(()) => Outcome::Ok,
